@@ -427,7 +427,11 @@ def gen_special(rng, k):
         L += ["b 00000001", "b " + hdr(0, 0, W, H, 5) + body]
     elif which == "resize":
         for _ in range(rng.choice([1, 2, 3])):
-            nw, nh = rng.choice([(0, 0), (0, 5), (5, 0), (1, 1), (65535, 1), (1, 65535), (65535, 65535), (3000, 3000), (20, 20)])
+            nw, nh = rng.choice([(0, 0), (0, 5), (5, 0), (1, 1), (65535, 1), (1, 65535), (65535, 65535), (3000, 3000), (20, 20),
+                                 # the MallocFrameBuffer policy boundary (4 MiB: exactly / one row or column more, per bytes-per-pixel)
+                                 # and the int boundary of width * height (* bytes per pixel)
+                                 (1024, 4096 // bypp), (1025, 4096 // bypp), (1024, 4096 // bypp + 1), (4096 // bypp, 1024),
+                                 (46341, 46341), (32768, 65535 // bypp), (65535, 32769)])
             m = rng.random()
             if m < 0.4:
                 L += ["b 00000001", "b " + hdr(0, 0, nw, nh, 0xffffff21)]
